@@ -1,7 +1,8 @@
 """Drive rig on JSON-described cases of property C10 (runs under /venv/bin/python, PYTHONPATH=/repo).
 
 kind "trees": routing_tree_to_tables(routes, net_keys)
-    routes   [[net, tree], ...]      tree = ["N", [x, y], [[route or null, tree], ...]] | ["L", vertex]
+    routes   [[net, tree], ...]      tree = ["N", [x, y], [[route or null, tree], ...] (, class)] | ["L", vertex]
+                                     class 0 (default) = RoutingTree itself, 1 / 2 = user-defined subclasses
     net_keys [[net, [key, mask]], ...]
   -> ["ok", [[[x, y], [[route...], key, mask, [source...]], ...], ...]]   (dict order; None is -1)
      ["multisource", key, mask, [x, y]] | ["other", exception class]
@@ -29,6 +30,33 @@ def route_obj(r):
     return Routes(r) if 0 <= r <= 23 else r
 
 
+class SlotNode(RoutingTree):
+    """A user-defined node class (an application's own bookkeeping), still without a __dict__."""
+    __slots__ = ["note"]
+
+
+class DictNode(RoutingTree):
+    """A user-defined node class with ordinary attributes and an overridden method."""
+
+    def __init__(self, chip, children=None):
+        super(DictNode, self).__init__(chip, children)
+        self.cost = 0
+
+    def __repr__(self):
+        return "<DictNode %r>" % (self.chip,)
+
+
+NODE_CLASSES = [RoutingTree, SlotNode, DictNode]
+
+
+class SubEntry(RoutingTableEntry):
+    """A user-defined subclass of the entry tuple."""
+    __slots__ = ()
+
+    def describe(self):
+        return str(self)
+
+
 class Vertex(object):
     def __init__(self, v):
         self.v = v
@@ -37,7 +65,8 @@ class Vertex(object):
 def build(t):
     if t[0] == "L":
         return Vertex(t[1])
-    return RoutingTree(tuple(t[1]), [(route_obj(r), build(k)) for r, k in t[2]])
+    cls = NODE_CLASSES[t[3] if len(t) > 3 else 0]
+    return cls(tuple(t[1]), [(route_obj(r), build(k)) for r, k in t[2]])
 
 
 def canon_set(s):
@@ -57,8 +86,8 @@ def run_trees(c):
                    for xy, es in tables.items()]]
 
 
-def entry_obj(e):
-    return RoutingTableEntry(set(route_obj(r) for r in e[0]), e[1], e[2],
+def entry_obj(e, cls=RoutingTableEntry):
+    return cls(set(route_obj(r) for r in e[0]), e[1], e[2],
                              set(route_obj(None if s == -1 else s) for s in e[3]))
 
 
@@ -70,7 +99,9 @@ def run_load(c):
     fake = sim.FakeConnection(chips)
     mc.connections = {None: fake}
     mc._scp_data_length = 256          # otherwise the first read asks the machine for its buffer size
-    tables = OrderedDict((tuple(xy), [entry_obj(e) for e in es]) for xy, es in c["tables"])
+    sub = c.get("sub_entries")
+    tables = OrderedDict((tuple(xy), [entry_obj(e, SubEntry if sub and i % 2 else RoutingTableEntry)
+                                      for i, e in enumerate(es)]) for xy, es in c["tables"])
     try:
         if c["mode"] == "entries":
             (xy, es), = tables.items()
